@@ -169,6 +169,18 @@ def ref_dloss(case, y, yhat):
     return out
 
 
+def ref_d2loss(case, y, yhat):
+    n, p = y.shape
+    kind = case["loss"]
+    W = broadcast(case["weights"], n, p, 1.0) if kind in ("Square", "Normal") else np.ones((n, p))
+    Sp = broadcast(case["spread"], n, p, default_spread(kind))
+    out = np.zeros((n, p))
+    for i in range(n):
+        for j in range(p):
+            out[i, j] = float(refdist.d2(kind, y[i, j], yhat[i, j], Sp[i, j], W[i, j]))
+    return out
+
+
 def obs_cols(case):
     names = ir.state_names(case["model"])
     return [names.index(s) for s in case["obs"]]
